@@ -34,6 +34,10 @@ def run_one(driver, prop, tier, base_seed, idx):
     try:
         driver.run_case(rng, tier, case)
     except Exception as e:                         # a bug in the harness, or an EAO exception the driver did not expect
+        if type(e).__name__ in ('AmbiguousTimeError', 'NonExistentTimeError'):
+            # the generator produced a naive local time that does not exist / is ambiguous in the grid zone (excluded domain, DESIGN 1.1)
+            case.violations = []; case.reject('generated local time not valid in the zone: ' + str(e)[:80]); case.stats['wall_ms'] = int(1000 * (time.time() - t0))
+            return case
         case.inconc('harness_error: %s: %s | %s' % (type(e).__name__, str(e)[:200],
                                                      traceback.format_exc().strip().splitlines()[-3:]))
         case.stats['harness_error'] += 1
@@ -267,7 +271,12 @@ def finish(driver, prop, tier, base_seed, records, summaries, known, wall):
     # ---- sufficiency (held vs inconclusive)
     reasons = []
     n_ran = len(ran)
-    min_nonvac = getattr(driver, 'MIN_NONVACUOUS', {}).get(tier, {})
+    mn = getattr(driver, 'MIN_NONVACUOUS', {})
+    min_nonvac = dict(mn.get('quick', {}))
+    if tier != 'quick' or len(records) != driver.CASES.get('quick', len(records)):
+        # thresholds are calibrated on the quick tier; other case counts scale them (with a 40 % margin)
+        ratio = max(0.0, 0.6 * len(records) / float(driver.CASES['quick']))
+        min_nonvac = {k: int(v * ratio) for k, v in min_nonvac.items()}
     for clause, need in min_nonvac.items():
         if nonvac.get(clause, 0) < need:
             reasons.append('clause %s evaluated non-vacuously %d < %d times' % (clause, nonvac.get(clause, 0), need))
